@@ -1,4 +1,36 @@
-import Stbem.Model.SingleLayer
-namespace Stbem.SL
-theorem placeholder_C11 : True := trivial
-end Stbem.SL
+import Stbem.Props.SL
+import Stbem.Props.Formulas
+import Stbem.Props.C15
+
+/-!
+# C11 — Additivity under splitting
+
+the time kernels telescope (exact additivity in either time interval, for every choice of special functions), the Ψ-combinations of the closed-form path are exactly additive in space (fint2_eq / fint4_eq / touch / same), the panels of parent and children tile the same rectangle and the rules are exact on polynomials. Additivity for the true kernel on the quadrature path holds up to quadrature error only (search).
+
+The theorems are proved in `Stbem.Props.SL` (model `Stbem.Model.SingleLayer`, tied to `src/single_layer.py` by exact
+execution of the real code), `Stbem.Props.Formulas` (terms regenerated from the Python source on every run) and
+`Stbem.Props.C15`; this file lists, as aliases, the ones that carry property C11.
+-/
+namespace Stbem.C11
+
+alias dtk_split_test := Stbem.Formulas.R.dtk_split_test
+alias dtk_split_trial := Stbem.Formulas.R.dtk_split_trial
+alias tik_split := Stbem.Formulas.R.tik_split
+alias stik_1_split_test := Stbem.Formulas.R.stik_1_split_test
+alias stik_2_split_test := Stbem.Formulas.R.stik_2_split_test
+alias stik_3_split_test := Stbem.Formulas.R.stik_3_split_test
+alias stik_4_split_test := Stbem.Formulas.R.stik_4_split_test
+alias stik_1_split_trial := Stbem.Formulas.R.stik_1_split_trial
+alias stik_2_split_trial := Stbem.Formulas.R.stik_2_split_trial
+alias stik_3_split_trial := Stbem.Formulas.R.stik_3_split_trial
+alias stik_4_split_trial := Stbem.Formulas.R.stik_4_split_trial
+alias fint2_eq := Stbem.Formulas.R.fint2_eq
+alias fint4_eq := Stbem.Formulas.R.fint4_eq
+alias fint4_touch := Stbem.Formulas.R.fint4_touch
+alias fint3_same := Stbem.Formulas.R.fint3_same
+alias panels_tile := Stbem.SL.panels_tile
+alias panels_cover_unique := Stbem.SL.panels_cover_unique
+alias duffy2_exact := Stbem.Quad.duffy2_exact
+alias product2_exact := Stbem.Quad.product2_exact
+
+end Stbem.C11
